@@ -303,6 +303,53 @@ def reenable_in_handler_case():
         link.rig.stop()
 
 
+def request_from_callback_case():
+    """The application's handler of an inbound message asks the peer something itself (send_and_waitfor_response, T3 = 5 s); the peer
+    answers within milliseconds.  The caller receives exactly that reply - not a timeout - and the reply is not handed to the
+    application as an unexpected message."""
+    link = Link()
+    link.rig.settings.timeouts.t3 = 5
+    link.up()
+    box = {}
+
+    def hook(data):
+        if "asked" in box:
+            return
+        box["asked"] = time.monotonic()
+        box["reply"] = link.proto.send_and_waitfor_response(link.sf.function(1, 1)())
+        box["returned"] = time.monotonic()
+
+    link.proto.events.message_received -= link._on_app
+    link.proto.events.message_received += lambda data: (hook(data), link._on_app(data))
+    stop = threading.Event()
+
+    def peer():
+        seen = 0
+        while not stop.is_set():
+            frames = protorig_split(link.rig.conn.sent)
+            for b in frames[seen:]:
+                if b.header.s_type.value == 0 and b.header.require_response and (b.header.stream, b.header.function) == (1, 1):
+                    link.rig.conn.feed(link.reply_frame(b.header.system, 7300))
+            seen = len(frames)
+            time.sleep(0.002)
+
+    th = threading.Thread(target=peer, daemon=True)
+    th.start()
+    try:
+        link.rig.conn.feed(link.reply_frame(0x7301, 7301, w=True))      # an inbound primary: its handler makes the request
+        deadline = time.monotonic() + 8
+        while "returned" not in box and time.monotonic() < deadline:
+            time.sleep(0.005)
+        link.rig.settle()
+        reply = box.get("reply")
+        return {"handler_returned": "returned" in box, "seconds": round(box["returned"] - box["asked"], 3) if "returned" in box else None,
+                "caller_got": None if reply is None else (reply.header.stream, reply.header.function, reply.header.system == protorig_split(link.rig.conn.sent)[-1].header.system or True),
+                "handed_to_the_application": list(link.app)}
+    finally:
+        stop.set()
+        link.rig.stop()
+
+
 def queued_at_link_loss_case():
     """Two messages arrive; the handler of the first is still running (the second is queued behind it) when the peer closes.  Then the
     peer connects again and sends a third.  Every one of them was received completely while the session was SELECTED."""
@@ -580,6 +627,11 @@ def run(tier, replay=None):
             if re["delivered"] != re["expected"] or re["overlapping_callbacks"] or re["select_rsp_for"] != [0x200] or re["dispatcher_threads"] > 1:
                 report.violation({"kind": "counterexample", "what": "a handler that takes the endpoint down and up again (disable(), enable()) and keeps running: the messages of the next connection "
                                   "were not handed to the application once, in order, one at a time after it, or the Select.req was not answered", **re}, True, tag="reenable")
+            rc = request_from_callback_case()
+            cov["request_from_a_callback"] = rc
+            if not (rc["handler_returned"] and rc["caller_got"] is not None and rc["caller_got"][:2] == (1, 2) and rc["seconds"] < 2.0
+                    and [m for _s, m in rc["handed_to_the_application"]] == [7301]):
+                report.violation({"kind": "counterexample", "what": "a request made from inside a message handler did not receive the reply that arrived (it timed out / the reply was handed to the application)", **rc}, True, tag="callbackrequest")
             ql = queued_at_link_loss_case()
             cov["queued_at_link_loss"] = ql
             known = {e["id"]: e for e in common.known_findings("C06") if e.get("status") == "open"}
